@@ -5,6 +5,8 @@ namespace MpVerif.C11
 /-- every byte of `w` is a blank -/
 def Blank (w : Bytes) : Prop := ∀ c ∈ w, isSpace c = true
 
+instance (w : Bytes) : Decidable (Blank w) := by unfold Blank; infer_instance
+
 /-- `b` is empty (the NUL follows) or starts with a byte on which `p` is false:
 a scan `while (*s && p(*s)) ++s` stops at `b`. -/
 def StopsAt (p : UInt8 → Bool) (b : Bytes) : Prop :=
